@@ -188,9 +188,10 @@ void trl(Ctx &c, bool near) {
 }
 
 // ---- (b) Levenberg-Marquardt ------------------------------------------------------------------
-void lm(Ctx &c) {
+void lm(Ctx &c, int force_type = -1, int *outcome = nullptr) {
     Scenario sc;
-    sc.type = (int)c.draw(8);
+    sc.type = (int)c.draw(8); if (force_type >= 0) sc.type = force_type;
+    if (outcome) *outcome = 0;
     gen_dims(c, sc.type, 3, sc.r, sc.c);
     sc.P = std::max(sc.r, sc.c);
     sc.F = 1 + (int)c.draw(2); sc.ab = c.boolean();
@@ -294,10 +295,14 @@ void lm(Ctx &c) {
         PBT_CHECK(c, run.log.text().find("not enough standards") == std::string::npos, "C02.refused_as_underdetermined",
                   "an identifiable, over-determined system (%d measurement equations beyond the error terms%s, %zu unknown parameters) was refused: %s",
                   excess + (int)sc.uparams.size() - (hub >= 0 ? (int)sc.uparams.size() - hub_collapsed : 0), hub >= 0 ? " plus one correlation equation per connection" : "", sc.uparams.size(), run.log.text().c_str());
+        if (itlimit > 3 && !late_stress && outcome) *outcome = 2;
+        if (itlimit > 3 && !late_stress) c.label(vm::is_colsys(sc.type) ? "LM:column-system-type:failed(limit>=30)" : "LM:single-system-type:failed(limit>=30)");   // reported, not asserted (DESIGN section 7)
         c.label(itlimit <= 3 ? "solve:failed(limit<=3)" : "solve:failed"); if (late_stress) { c.label("LM:later-frequency-stress:failed"); c.nontrivial(); } return;
     }
     c.label("solve:ok");
     PBT_CHECK(c, run.log.n_nonwarning() == 0, "C02.success_with_error_callback", "solve returned 0 but reported: %s", run.log.text().c_str());
+    if (itlimit > 3 && !late_stress && outcome) *outcome = 1;
+    if (itlimit > 3 && !late_stress) c.label(vm::is_colsys(sc.type) ? "LM:column-system-type:solved(limit>=30)" : "LM:single-system-type:solved(limit>=30)");
     if (late_stress) { c.label("LM:later-frequency-stress:solved"); return; }     // the guess was outside the basin on purpose: nothing is claimed about the values
     if (single_with_unknown || sc.uparams.size() >= 2 || correlated || itlimit <= 3) c.nontrivial();
     // with error weighting the exact data are still exact: same bound
@@ -323,12 +328,40 @@ void lm(Ctx &c) {
     if (itlimit > 3 && c.chance(1, 2)) resolve_on_other_grid(c, sc, run, std::max(ptol, ettol), kappa, "LM-regrid", false, knobs, ptol);
 }
 
+// ---- (c) the column-system types stay in the property's domain ------------------------------------
+// The property's conclusions are conditional on a successful solve, and whether one instance converges is not
+// asserted (the basin is not computable).  But "all over-determined systems ... on every type" is void for a type on
+// which the solver stops converging.  One tape case here is a BATCH of 120 LM instances on UE14 / E12 (the types whose
+// error terms form one linear system per column) drawn from a stream seeded from the tape; among those that pass
+// the identifiability / excess filters and have an iteration limit >= 30, at most 30 % may fail to converge.  The
+// unchanged tree fails 3..4 % (binomial tail of 15 failures in 48 at p = 0.04: < 1e-10); every instance is still
+// checked in full.
+static pbt::Shared g_aux;
+void colsys_convergence_batch(Ctx &c) {
+    uint64_t seed = c.draw(1ull << 40);
+    int solved = 0, failed = 0;
+    for (int i = 0; i < 120; i++) {
+        Ctx a; a.sh = &g_aux; a.rng = pbt::mix(seed, 0x0200 + i); a.size = c.size;
+        int out = 0;
+        lm(a, (i & 1) ? vm::UE14 : vm::E12, &out);
+        if (out == 1) solved++; else if (out == 2) failed++;
+    }
+    c.label("batch:column-system-convergence");
+    c.note("batch seed %llu: %d of %d eligible UE14/E12 self-calibrations converged", (unsigned long long)seed, solved, solved + failed);
+    if (solved + failed < 25) { c.label("batch:too-few-eligible(inconclusive)"); return; }
+    c.track_max("batch: fraction of eligible UE14/E12 self-calibrations that failed to converge", (double)failed / (solved + failed));
+    PBT_CHECK(c, failed * 10 <= 3 * (solved + failed), "C02.column_system_types_stopped_converging",
+              "%d of %d identifiable, over-determined UE14/E12 self-calibrations with guesses within 0.1 of the truth and an iteration limit >= 30 failed to converge (unchanged tree: 3..4 %%; limit 30 %%)", failed, solved + failed);
+    c.nontrivial();
+}
+
 } // namespace
 
 void pbt_property(Ctx &c) {
-    switch (c.weighted({3, 5, 3})) {
+    switch (c.weighted({3, 5, 3, 1})) {
     case 0: trl(c, false); break;
     case 1: lm(c); break;
+    case 3: if (c.chance(1, 30)) colsys_convergence_batch(c); else lm(c); break;
     default: trl(c, true); break;
     }
 }
